@@ -541,8 +541,8 @@ def run(chk):
     ]
     chk.assumptions = ["attribute values fit a C int (the emulator casts the JSON double to int)",
                        "loom names are NUL-free and shorter than PATH_MAX",
-                       "C15_union has the hypothesis rank_names_proc (no rank claimed by two different processes); without it the statement "
-                       "is false (C15_union_rank_ties_refuted) and the real emulator shows it: known finding rank-ties-order-dependent",
+                       "with equal ranks in two processes (invalid MPI metadata) the property fixes no order, only that it depends on the union alone: "
+                       "judged by comparing enumerations (C15_union holds unconditionally since the tie-break repair; C15_union_rank_ties_refuted_old is the code before)",
                        "'duplicate TIDs' is read as the same (loom, pid, tid) in two streams"]
     chk.translate_and_prove(["cmp_meta"])
     build = common.repo_build("hook")
@@ -611,7 +611,7 @@ def run(chk):
                     cases.append({"kind": "contradiction", "label": lab, "streams": m, "naming": nm})
             for (lab, m) in illformed_of(m0):
                 cases.append({"kind": "illformed", "label": lab, "streams": m, "naming": namings(len(m), r, 1)[1]})
-        # ---- rank ties (left open by the property): observed and recorded, compared with the model only
+        # ---- rank ties (the order among equal ranks is left open by the property, its independence of the enumeration is not)
         if sum(1 for s in base if s["rank"] is not None) > 1:
             m = [dict(s) for s in base]
             for s in m:
@@ -704,10 +704,10 @@ def run(chk):
             if o["thread.row"] != th or o["cpu.row"] != cp:
                 chk.violation("order:%s" % c["line"], "rows are not in the stated order: thread.row %s (want %s), cpu.row %s (want %s)"
                               % (o["thread.row"], th, o["cpu.row"], cp), dict(replay, want_thread_row=th, want_cpu_row=cp))
-        # (4) same union => same outcome and identical rows
-        if not ties:
-            g = groups.setdefault(spec_union(m), [])
-            g.append((c, o))
+        # (4) same union => same outcome and identical rows; also with rank ties: since /repo's fix of by_rank /
+        # cmp_loom_rank equal ranks are ordered by PID and by loom name, so nothing depends on the enumeration
+        g = groups.setdefault(spec_union(m), [])
+        g.append((c, o))
         # (5) tie with the model
         if aB is not None:
             cpu = [o["run_cpu"][k] for k in c["perm"]]
@@ -741,7 +741,7 @@ def run(chk):
     for c, o in zip(cases, obs):
         if c["kind"] == "ranktie":
             tie_obs.setdefault(spec_union(c["ordered"]), set()).add(json.dumps([o["cls"], o["thread.row"], o["cpu.row"]]))
-    # known finding: equal ranks in two processes are ordered by enumeration order (corpus/C15/05-rank-tie.json)
+    # regression case of the repaired defect: equal ranks in two processes were ordered by enumeration order (corpus/C15/05-rank-tie.json)
     tie_corpus = {}
     for c, o in zip(cases, obs):
         if c["kind"] == "corpus-ranktie":
@@ -753,7 +753,7 @@ def run(chk):
                     (o0["cls"], o0["thread.row"], o0["cpu.row"]) != (o1["cls"], o1["thread.row"], o1["cpu.row"]):
                 chk.violation("rank-ties-order-dependent",
                               "two processes claiming the same rank make thread/CPU rows depend on stream enumeration order",
-                              {"corpus": "corpus/C15/%s.json" % lab, "theorem": "C15_union_rank_ties_refuted",
+                              {"corpus": "corpus/C15/%s.json" % lab, "theorem": "C15_union_rank_ties_refuted_old (model of the code before the repair)",
                                "enumeration_a": c0["ordered"], "enumeration_b": c1["ordered"],
                                "a_result": [o0["cls"], o0["thread.row"], o0["cpu.row"]],
                                "b_result": [o1["cls"], o1["thread.row"], o1["cpu.row"]],
